@@ -23,22 +23,31 @@ ID = "C20"
 KNOWN = "C20-dnorm-cx"
 SHARDS = {"quick": 8, "thorough": 16}
 
-RULE = ("stencils: grid n_x,n_y in 2..12 (column-major, y fastest, top to bottom, as documented), voxel width/height "
-        "10^[-3,1], origin R_0 = dx*(0.5+[0.05,40]), Z_top = dy*[-40,40], polynomial c0 + aX + bY + cXY + dX^2 + eY^2 about "
-        "a drawn reference point with all of |a|..|e| in [0.1,10], separate constant field with |c| in [0.01,100]: every case is non-trivial (all monomials present); "
-        "classes = grid shape (2xN, Nx2, no interior cell, n_x != n_y). "
-        "admt: same grids, flux map from {tilted plane, plane + quadratic form, plane + sin*sin, off-axis elliptic bowl, "
-        "Solov'ev-like quartic} constructed so that a directional derivative is bounded away from 0 on the whole grid "
-        "(=> the discrete |grad psi|^2 > 0 in every cell by the mean-value theorem), anisotropy = 1 in half of the cases, else "
-        "[1,100] (int or float); non-trivial = curved flux map (non-zero second derivatives of psi). "
+RULE = ("stencils: grid n_x,n_y in 2..12 incl. the extremes (column-major, y fastest, top to bottom, as documented), voxel width/height "
+        "10^[-3,1] plus presets (1, 0.01, dx == dy), x origin anywhere incl. grids straddling x = 0 / a column exactly on 0, Z_top = "
+        "dy*[-40,40] plus rows exactly on / symmetric / asymmetric about Z = 0, polynomial c0 + aX + bY + cXY + dX^2 + eY^2 about a drawn "
+        "reference point with all of |a|..|e| in [0.1,10], separate constant field with |c| in [0.01,100]: every case is non-trivial "
+        "(all monomials present); classes = grid shape (no interior cell, n_x != n_y, n = 2, n = 12), position relative to 0. "
+        "admt: same grids with R_0 = dx*(0.5+[0.05,40]) > 0, flux map from {tilted plane (incl. exactly axis-aligned: one gradient "
+        "component exactly 0), plane + quadratic form, plane + sin*sin, off-axis elliptic bowl, Solov'ev-like quartic} constructed so "
+        "that a directional derivative is bounded away from 0 on the whole grid (=> discrete |grad psi|^2 > 0 in every cell by the "
+        "mean-value theorem); anisotropy: 40% exactly 1 (int 1 or float 1.0), 10% 1+{2^-52,1e-12,1e-9,1e-7,1e-6} (continuity), else "
+        "[1,100] as int or float incl. the default 10; every case also re-computes the operator for c*psi, c in +-10^[-6,3] "
+        "(scale invariance), and plane maps on grids with >= 4 interior cells are applied to a full quadratic f (exactness for a "
+        "constant, generally oblique, diffusion tensor); non-trivial = curved flux map, or plane with anisotropy != 1 and >= 4 interior cells. "
         "refine: box [R_l, R_l+Lx] x [Z_t-Ly, Z_t] with R_l = Lx*[0.5,5] (h/R <= 0.4 on the coarsest grid, so the 1/R "
         "coefficient is resolved) of n_x,n_y in 5..7 cells refined h -> h/2 -> h/4 (up to 28x28 cells), same flux-map "
         "families limited to <= 1 radian of phase per coarse cell and axis margin >= 0.5 box, f = quadratic + sin*sin in box "
-        "coordinates, anisotropy as above; non-trivial = curved flux map (anisotropy != 1, or anisotropy == 1: metamorphic "
-        "class). "
-        "Distinct = distinct case hash (continuous parameters: practically every case). While the finding C20-dnorm-cx is "
-        "open, flux maps with d psi/dy != 0 are excluded from refine and from the anisotropy-1 cases of admt (label "
-        "excluded_known); its probe replays/C20/known-dnorm-cx.json is replayed on every run.")
+        "coordinates, anisotropy as above; non-trivial = curved flux map. "
+        "forms: general or integer-coordinate grid (2..8 cells); vertices as float64 ndarray / list of lists of tuples / nested tuples / "
+        "Fortran-ordered / strided view / read-only, and float32 / int64 on integer grids (exact); index maps as dict in original, "
+        "reversed or shuffled insertion order, OrderedDict, MappingProxyType; radii and psi as float64 / strided / read-only / float32 / "
+        "int64 (integer grids) and radii as list; operators as the returned dict, re-ordered dict with an extra key, OrderedDict, "
+        "Fortran-ordered or read-only arrays; dx, dy as float / numpy.float64 / int; positional, keyword, all-keyword calls and "
+        "anisotropy omitted (default 10). One case = one combination; all forms must reproduce the canonical float64 result; the same "
+        "operators are re-used for a second flux map / anisotropy and the first call is repeated (bit-identical); all arguments must "
+        "be bit-identical afterwards and overwriting them later must not change returned operators. Every forms case is non-trivial. "
+        "Distinct = distinct case hash (continuous parameters: practically every case).")
 ASSUMPTIONS = [
     "grids are built exactly as the docstring and test_admt.py describe (column-major, first voxel of a column on top, "
     "vertex order of the test); other orderings are not documented input",
@@ -50,6 +59,11 @@ ASSUMPTIONS = [
     "for all three levels) is allowed between operator/sqrt(dx*dy) and the continuous operator with Dpar=1, "
     "Dperp=1/anisotropy; lambda is forced to 1 when anisotropy == 1",
     "numpy float64 matmul",
+    "psi -> c*psi invariance and exactness for quadratic f on plane flux maps are taken as implied by 'discretisation of the "
+    "field-aligned operator div(D grad f)' (D depends on the direction of grad psi only; for a plane map D is constant and every "
+    "interior stencil is central); both hold for the documented formula up to rounding",
+    "public entry points of the anchored file: generate_derivative_operators, calculate_admt (also re-exported by "
+    "cherab.tools.inversions); the TypeError argument validation is not part of the property and is not checked",
 ]
 TOLERANCES = {
     "stencil exactness": "|D@f - exact| <= 1e-9 * max_row_1norm(D) * max|f|: both sides are the same finite sums up to "
@@ -65,9 +79,30 @@ TOLERANCES = {
                   "covered by the interior cells of the coarsest grid (one physical region for all three levels) must shrink "
                   ">= 1.6x per halving (second-order central stencils give ~4x; measured on the fixed tree over 600 cases: "
                   "min 2.7x, finest error <= 0.42% of scale); a rounding floor of 1e-9*||L||inf*max|f|/sqrt(dx*dy) is allowed",
+    "psi scale / plane-quadratic": "|difference| <= ||L||inf * (1e-9 + 100*eps*max|psi|/(min|grad_h psi|*min(dx,dy))) [* max|f|/sqrt(dx dy)]: "
+                                   "a relative perturbation eps of the psi samples changes the discrete gradient direction and "
+                                   "psi''*h/|grad psi| by eps*that condition number (measured worst err/tol 2e-3)",
+    "continuity at anisotropy 1": "|L(a) - laplacian| <= (1e-9 + 50*|a-1|) * ||laplacian||inf for |a-1| <= 1e-6: the operator is "
+                                  "P + Q/a with ||Q|| <= a few ||laplacian|| (measured constant 0.6)",
+    "forms / re-use": "1e-12 * inf-norm (same values, same arithmetic; only summation order / BLAS path may differ: measured 4e-15); "
+                      "repeat of an identical call: bit-identical",
 }
-REQUIRED_LABELS = ["stencils:no_interior", "stencils:interior", "stencils:nx!=ny",
-                   "admt:iso:curved", "admt:aniso:curved", "refine:aniso:curved", "refine:iso:curved"]
+REQUIRED_LABELS = ["stencils:no_interior", "stencils:interior", "stencils:nx!=ny", "stencils:n=2", "stencils:n=12", "stencils:dx==dy",
+                   "stencils:z:straddles0", "stencils:z:centre_on_0", "stencils:z:asymmetric_about_0", "stencils:x:straddles0",
+                   "admt:iso:curved", "admt:aniso:curved", "admt:near1:curved", "admt:aniso:int", "admt:aniso:float",
+                   "admt:z:straddles0", "admt:z:centre_on_0", "admt:z:asymmetric_about_0", "admt:psi:zero_component",
+                   "admt:pscale:<=1e-2", "admt:pscale:negative", "admt:plane-quadratic:aniso:oblique", "admt:plane-quadratic:iso:oblique",
+                   "admt:plane-quadratic:aniso:aligned", "admt:n=2", "admt:n=12",
+                   "refine:aniso:curved", "refine:iso:curved",
+                   "forms:entry:generate_derivative_operators", "forms:entry:calculate_admt", "forms:entry:package-export"] + \
+                  ["forms:vertices:" + f for f in ("ndarray", "list", "tuple", "fortran", "strided", "readonly", "float32", "int")] + \
+                  ["forms:map12:" + f for f in ("dict", "reversed", "shuffled", "ordered", "proxy")] + \
+                  ["forms:map21:" + f for f in ("dict", "reversed", "shuffled", "ordered", "proxy")] + \
+                  ["forms:radii:" + f for f in ("f64", "strided", "readonly", "list", "f32", "int")] + \
+                  ["forms:psi:" + f for f in ("f64", "strided", "readonly", "f32", "int")] + \
+                  ["forms:operators:" + f for f in ("dict", "reordered+extra", "fortran", "readonly", "ordered")] + \
+                  ["forms:dxdy:" + f for f in ("float", "npfloat", "int")] + \
+                  ["forms:call:" + f for f in ("kw", "pos", "allkw", "default")]
 
 
 # ------------------------------------------------------------------------------------------------ closed-form fields
@@ -414,9 +449,13 @@ def _psi_class(p):
 
 
 def _admt(ctx, grid, ops, psi, dx, dy, aniso, n, radii=None):
+    radii = grid["x"].copy() if radii is None else radii
+    snap = (psi.copy(), radii.copy())
     with ctx.cut("calculate_admt"):
-        A = calculate_admt(grid["x"].copy() if radii is None else radii, ops, psi, dx, dy, anisotropy=aniso)
+        A = calculate_admt(radii, ops, psi, dx, dy, anisotropy=aniso)
     A = np.asarray(A)
+    ctx.check(bool(np.array_equal(psi, snap[0])) and bool(np.array_equal(radii, snap[1])), "caller-owned",
+              "calculate_admt modified its psi / radii arguments in place")
     ctx.check(A.shape == (n, n), "admt-shape", lambda: "operator has shape %s for %d cells" % (A.shape, n))
     ctx.check(bool(np.all(np.isfinite(A))), "admt-finite",
               lambda: "%d non-finite entries in the ADMT operator" % int(np.sum(~np.isfinite(A))))
